@@ -107,7 +107,6 @@ macro_rules! create_window_processor {
      $r2r_store:expr, $has_joins:expr, $cross_window_enabled:expr,
      $window_result_sender:expr, $r2s_consumer_func:expr,
      $seed_registry:expr, $latest_hybrid_results:expr) => {{
-        let mut prev_window_triples: Vec<I> = Vec::new();
         move |content: ContentContainer<I>| {
             debug!(
                 "Processing window {} with query: {:?} using {:?} execution",
@@ -153,16 +152,12 @@ macro_rules! create_window_processor {
                 }
             }
 
-            // Evict triples from the previous firing of this window
-            for t in &prev_window_triples {
-                store.remove(t);
-            }
-            prev_window_triples.clear();
-
-            // Add current window triples and track them for next eviction
-            for t in content.into_iter() {
-                prev_window_triples.push(t.clone());
-                store.add(t);
+            // The R2R store is shared by all windows: it holds the content of one
+            // window only while that window's plan runs (the store lock is held), so
+            // that a WINDOW block never matches items of another window.
+            let window_triples: Vec<I> = content.into_iter().collect();
+            for t in &window_triples {
+                store.add(t.clone());
             }
 
             // Run forward-chaining inference to materialise derived facts
@@ -177,6 +172,11 @@ macro_rules! create_window_processor {
 
             let results = store.execute_query(&$query);
             debug!("Got # results {} for window {}", results.len(), $window_iri);
+
+            // Evict this firing's triples before any other window can see them
+            for t in &window_triples {
+                store.remove(t);
+            }
 
             // Release lock early to reduce contention
             drop(store);
